@@ -282,13 +282,25 @@ spif_mbuff_init_from_fd(spif_mbuff_t self, int fd)
     } else {
         file_size -= (spif_memidx_t) file_pos;
         LOWER_BOUND(file_size, 0);
+        spif_memidx_t got = 0;
+        ssize_t cnt;
+
         self->len = self->size = file_size;
         self->buff = (spif_byteptr_t) MALLOC(self->size);
 
-        if (read(fd, self->buff, file_size) < 1) {
+        while (got < file_size) {
+            cnt = read(fd, self->buff + got, (size_t) (file_size - got));
+            if (cnt > 0) {
+                got += cnt;
+            } else if ((cnt == 0) || (errno != EINTR)) {
+                break;
+            }
+        }
+        if (got < 1) {
             FREE(self->buff);
             return FALSE;
         }
+        self->len = got;
     }
     return TRUE;
 }
